@@ -213,6 +213,10 @@ def dictGet {κ ν : Type} [BEq κ] (d : List (κ × ν)) (k : κ) : Except Err 
 /-- `k in d` -/
 def dictHas {κ ν : Type} [BEq κ] (d : List (κ × ν)) (k : κ) : Bool := (d.lookup k).isSome
 
+/-- `{k: v for …}`: the entries in order; a repeated key keeps its first position and takes the last value -/
+def dictOfPairs {κ ν : Type} [BEq κ] (l : List (κ × ν)) : List (κ × ν) :=
+  l.foldl (fun d kv => dictSet d kv.1 kv.2) []
+
 /-! ### exceptions -/
 
 /-- `try: <outcome> except <kind>: <handler>` followed by `rest`: only the named kind is caught -/
